@@ -95,7 +95,7 @@ ORACLE = {
     'C13': ['res', 'tree', 'unjustified'],
     'C14': ['res', 'tree', 'rollback', 'tmp_leak', 'contract'],
     'C15': ['refused_effect', 'tmp_leak'],
-    'C16': ['res', 'unjustified', 'rollback', 'clean_tree'],
+    'C16': ['res', 'unjustified', 'rollback', 'clean_tree', 'cache_early'],
     'TIE': [],
 }
 # correspondence slices: disagreements between the real code and the implementation model FB.Impl
@@ -663,7 +663,66 @@ def bulk_foreign_probe(tier, rep):
     return problems
 
 
+def bulk_target_probe(tier, rep):
+    """C10 at a size no generated history reaches: several hundred targets that exist as foreign files before the
+    build.  Every function must start with its target absent; a function that writes nothing must make build_file
+    raise and leave no file at the target (the file that lay there was moved aside, not left in place)."""
+    import shutil
+    import tempfile
+    fb = realrun.load_fb()
+    FB = fb.FileBuilder
+    problems = []
+    n = 300 if tier == 'quick' else 9000
+    root = os.path.realpath(tempfile.mkdtemp(prefix='fbh_bulkt_', dir=realrun.SANDBOX_BASE))
+    try:
+        cache = os.path.join(root, 'cache.gz')
+        paths = [os.path.join(root, 'u', 'd%02d' % (i % 7), 'f%05d' % i) for i in range(n)]
+        for i, p in enumerate(paths):
+            os.makedirs(os.path.dirname(p), exist_ok=True)
+            with open(p, 'w') as fh:
+                fh.write('foreign-%d' % i)
+        present_at_start, not_raised, left_behind = [], [], []
+
+        def leaf(b, fn, i):
+            if os.path.lexists(fn):
+                present_at_start.append(i)
+            if i % 3 != 2:
+                with open(fn, 'w') as fh:
+                    fh.write('built-%d' % i)
+
+        def rootf(b):
+            for i, p in enumerate(paths):
+                try:
+                    b.build_file(p, 'leaf', leaf, i)
+                    if i % 3 == 2:
+                        not_raised.append(i)
+                except Exception:
+                    if i % 3 != 2:
+                        raise
+                    if os.path.lexists(p):
+                        left_behind.append(i)
+        FB.build(cache, 'n', rootf)
+        rep.count('bulk_targets_replaced', n)
+        how = 'create %d files u/d<i%%7>/f<i>; build_file every one of them in one build; every third function writes nothing' % n
+        if present_at_start:
+            problems.append({'what': '%d of %d functions found the old file still at their target when they started' % (len(present_at_start), n),
+                             'first': present_at_start[:5], 'how_to_replay': how})
+        if not_raised:
+            problems.append({'what': '%d build_file calls whose function wrote nothing returned normally' % len(not_raised),
+                             'first': not_raised[:5], 'how_to_replay': how})
+        if left_behind:
+            problems.append({'what': '%d failed build_file calls left a file at the target' % len(left_behind),
+                             'first': left_behind[:5], 'how_to_replay': how})
+    except Exception as e:
+        problems.append({'what': 'bulk build raised %s: %s' % (type(e).__name__, str(e)[:120])})
+    finally:
+        shutil.rmtree(root, ignore_errors=True)
+    return problems
+
+
 def _c10_after(tier, rep):
+    for q in bulk_target_probe(tier, rep)[:2]:
+        rep.violation('bulk_targets', {'property': 'C10', 'kind': 'failing-input', 'what': q}, note=json.dumps(q, default=str)[:250])
     for q in symlink_probe(tier, rep)[:2]:
         rep.violation('symlink', {'property': 'C10', 'kind': 'failing-input', 'what': q}, note=json.dumps(q, default=str)[:250])
     # _make_dirs on its own, with an OSError at every mkdir position: nothing may be left behind (oracle), and the
@@ -928,6 +987,8 @@ def check_C16(tier):
     cases = corpus_cases(ds) + c16_cases(tier, ds)
     # created directories - also the ones made for the cache file itself - survive the write/read cycle
     cases += gen.gen_scenario_cases(core.seed() * 31 + 16, budget(tier, 40, 800), ds, [gen.scen_cache_subdir])
+    # failure markers and refused duplicates (set-up failed stubs) in the forest: what is a root, what is nested
+    cases += gen.gen_scenario_cases(core.seed() * 31 + 116, budget(tier, 30, 600), ds, [gen.scen_dups, gen.scen_nested_failure, gen.scen_nested_reuse, gen.scen_double_failure])
     cases += random_cases(tier, 300, 15000, 16, prof=RICH_RETS, dirsize=ds, p_fail=0.1)
     for i, c in enumerate(cases):
         if not str(c.get('seed', '')).startswith('corpus:') and i % 4 == 0:
